@@ -500,6 +500,10 @@ def run(ck):
                 cs = [dict(c, int_t=("list" if i % 2 else "array")) for i, c in enumerate(calls)]
             if gk == "single":      # the API also takes a bare number for t
                 cs = cs + [dict(c, scalar_t=True) for c in calls if c.get("method") in (None, "dopri5")]
+            if spec.get("name") == "Spiral":
+                # hundreds of periods between two output times: vode / ivode may exhaust their step budget (nsteps = 10000) and say
+                # so with an IntegrationError -- a refusal, not a wrong answer (same policy as the long-gap corpus grid below)
+                cs = [dict(c, refusal_ok=True) if c.get("method") in ("vode", "ivode") else c for c in cs]
             for call, cls, what in sweep(ck, spec, grid, cs, stats, cases, m=m):
                 violations.append((spec, grid, call, cls, what))
     # ---- corpus grids: (a) one long gap between output times (internal step budget of the integrators), (b) output spacing
